@@ -32,6 +32,12 @@ fn main() {
             let lines = t.finish();
             println!("{}", serde_json::json!({"runs": runs, "events": lines}));
         }
+        "decode" => {
+            let mut t = Trace::create(job["out"].as_str().unwrap());
+            let runs = vharness::decodeh::run(&job, &mut t);
+            let lines = t.finish();
+            println!("{}", serde_json::json!({"runs": runs, "events": lines}));
+        }
         "crash" => {
             let mut t = Trace::create(job["out"].as_str().unwrap());
             let runs = vharness::crash::run(&job, &mut t);
